@@ -42,7 +42,12 @@ def encode_name(rng, s):
 
 def gen_bytes(rng, maxlen=4096):
     n = rng.randint(0, rng.choice([0, 1, 2, 3, 5, 8, 16, 32, 64, 128, 256, 512, 1024, 2048, maxlen]))
-    k = rng.randint(0, 9)
+    k = rng.randint(0, 12)
+    if k >= 10:     # low-valued bytes (0..=3, 0..=8, 0..=15), long: few definitions each, so that generation still has
+        # entropy for the schema definition, fragments and SEVERAL operations (cross-operation state)
+        hi = rng.choice([3, 8, 8, 15])
+        m = rng.randint(min(800, maxlen), maxlen)
+        return bytes(rng.randint(0, hi) for _ in range(m))
     if k >= 7:      # zero prefix, then half zero / half uniform: reaches fragments, extensions, operations
         z = rng.randint(0, 300)
         return bytes(z) + bytes(rng.randrange(256) if rng.random() < 0.5 else 0 for _ in range(min(n, 1500)))
